@@ -618,6 +618,15 @@ func replyFor(g *genCtx, sp sessParams, class byte, fn, cmdNo byte, prefix []byt
 		return specMessage(0x81, netfn|1, 0, 0x20, 1, 0, cmd, &c, prefix, data)
 	}
 	body := []byte{0x11, 0x22, 0x33, byte(attempt)}
+	// strays and forgeries: the message header fields a conforming BMC mirrors (addresses, LUNs, requester sequence number)
+	// are anything at all in a third of them — none of them makes such a reply acceptable
+	rspAny := func(netfn, cmd, cc byte, px, data []byte) []byte {
+		c := cc
+		if g.rng.Intn(3) == 0 {
+			return specMessage(byte(g.rng.Intn(256)), netfn|1, byte(g.rng.Intn(4)), byte(g.rng.Intn(256)), byte(g.rng.Intn(64)), byte(g.rng.Intn(4)), cmd, &c, px, data)
+		}
+		return specMessage(0x81, netfn|1, 0, 0x20, 1, 0, cmd, &c, px, data)
+	}
 	var r []byte
 	switch class {
 	case 'F':
@@ -630,14 +639,13 @@ func replyFor(g *genCtx, sp sessParams, class byte, fn, cmdNo byte, prefix []byt
 		r = b.seal(rsp(fn, cmdNo, 0xC3, body))
 	case 'X': // authentic reply to another command (any completion code, with or without a body)
 		fn2, cmd2, prefix2, cc2, data2 := strayReply(g, fn, cmdNo, prefix)
-		c := cc2
-		r = b.seal(specMessage(0x81, fn2|1, 0, 0x20, 1, 0, cmd2, &c, prefix2, data2))
+		r = b.seal(rspAny(fn2, cmd2, cc2, prefix2, data2))
 	case 'U': // forged: no AuthCode, no encryption, attacker's session ID
-		r = b.sealWith(rsp(fn, cmdNo, 0, []byte{0x66}), 0xDEADBEEF, forgedSeq, false, false, nil, nil)
+		r = b.sealWith(rspAny(fn, cmdNo, 0, prefix, []byte{0x66}), 0xDEADBEEF, forgedSeq, false, false, nil, nil)
 	case 'V': // authenticated flag cleared, plaintext, our session ID
-		r = b.sealWith(rsp(fn, cmdNo, 0, []byte{0x67}), sp.lid, forgedSeq, false, false, nil, nil)
+		r = b.sealWith(rspAny(fn, cmdNo, 0, prefix, []byte{0x67}), sp.lid, forgedSeq, false, false, nil, nil)
 	case 'W': // authentic under K1 but addressed to another session
-		r = b.sealWith(rsp(fn, cmdNo, 0, body), 0x12345678, b.outSeq, true, true, sp.k1, sp.k2)
+		r = b.sealWith(rspAny(fn, cmdNo, 0, prefix, body), 0x12345678, b.outSeq, true, true, sp.k1, sp.k2)
 	case 'S': // one bit of the AuthCode flipped
 		r = b.seal(rsp(fn, cmdNo, 0, body))
 		r[len(r)-1-g.rng.Intn(8)] ^= 1 << g.rng.Intn(8)
